@@ -71,10 +71,13 @@ pub fn base_char_def(overrides: &[(&str, (u8, u8, u8))]) -> String {
     s
 }
 
+/// (the two definitions of KANJI and of ALPHA are deliberately not on adjacent lines: the
+/// definitions of a class are all the lines naming it, wherever they stand; a comment and a blank
+/// line are part of the format)
 pub fn base_unk_def() -> String {
-    "DEFAULT,5,5,3857,補助記号,一般,*,*,*,*\nSPACE,4,4,6056,空白,*,*,*,*,*\nKANJI,1,1,14657,名詞,普通名詞,一般,*,*,*\n\
-     KANJI,2,2,18181,名詞,固有名詞,地名,一般,*,*\nNUMERIC,3,3,12450,名詞,数詞,*,*,*,*\nALPHA,1,1,11633,名詞,普通名詞,一般,*,*,*\n\
-     ALPHA,2,2,13620,名詞,固有名詞,地名,一般,*,*\nKATAKANA,1,1,10980,名詞,普通名詞,一般,*,*,*\nUSER1,6,6,9000,名詞,普通名詞,未知,*,*,*\n"
+    "# unknown word definitions\n\nDEFAULT,5,5,3857,補助記号,一般,*,*,*,*\nALPHA,1,1,11633,名詞,普通名詞,一般,*,*,*\nSPACE,4,4,6056,空白,*,*,*,*,*\nKANJI,1,1,14657,名詞,普通名詞,一般,*,*,*\n\
+     NUMERIC,3,3,12450,名詞,数詞,*,*,*,*\nKANJI,2,2,18181,名詞,固有名詞,地名,一般,*,*\n\
+     KATAKANA,1,1,10980,名詞,普通名詞,一般,*,*,*\nALPHA,2,2,13620,名詞,固有名詞,地名,一般,*,*\nUSER1,6,6,9000,名詞,普通名詞,未知,*,*,*\n"
         .to_string()
 }
 
